@@ -245,6 +245,27 @@ def _rules(ck, prog, cfg):
                     ck.bad("R05.6", "WATCH:store-into-snapshot#%d%s" % (n6, _tag(cfg)),
                            "the WATCH arm overwrites part of an existing snapshot entry", fn.where(st["ln"]))
     ck.floor("R05.6" + _tag(cfg), n6, 1)
+    # executor-level twin: execute_watch may only add to self.watched_keys
+    for ew in [g for g in prog.lib_fns() if g.short == "execute_watch" and g.file == "src/redis/executor/transaction_ops.rs"]:
+        n6b = 0
+        for g in [ew] + prog.children(ew):
+            for b, t in g.calls():
+                if t["args"] and _self_field(g, t["args"][0]) == "watched_keys":
+                    n6b += 1
+                    allowed = is_callee(t, r"(AHashMap|HashMap)::<.*>::(insert|entry|len|is_empty|contains_key|get|iter|keys|reserve)\b", r"Deref(Mut)?>::deref(_mut)?$")
+                    ck.check(allowed, "R05.6", "execute_watch:%s%s" % (callee(t).rsplit("::", 1)[-1].split("<")[0], _tag(cfg)),
+                             "execute_watch calls %s on the watched-key map: WATCH must only add keys (an earlier WATCH of the same connection "
+                             "stays in force until EXEC/DISCARD/UNWATCH)" % callee(t).rsplit("::", 1)[-1], g.where(t["ln"]), detail="append-only")
+            for b, i, st in g.stmts():
+                lhs = st["lhs"]
+                if "p" in lhs:
+                    sp = src_of_place(g, lhs)
+                    if sp.kind == "path" and sp.root == "self" and sp.fields == ("watched_keys",):
+                        n6b += 1
+                        ck.bad("R05.6", "execute_watch:replace-map%s" % _tag(cfg),
+                               "execute_watch assigns a new map to self.watched_keys: keys registered by an earlier WATCH are forgotten, a "
+                               "write to them no longer aborts EXEC", g.where(st["ln"]))
+        ck.floor("R05.6-executor" + _tag(cfg), n6b, 1)
 
     # ---- R05.7
     parse = [(b, t) for b, t in fn.calls() if is_callee(t, r"Command>::from_resp_zero_copy$")]
